@@ -509,18 +509,31 @@ class StylingElement(TTMLElement):
       '''Flattens Chained Referential Styling of the target `style_element` by specifying
       the style properties of the referenced style elements directly in the target element
       '''
-      while len(style_element.style_refs) > 0:
+      # explicit stack instead of recursion: the length of a chain of references is not bounded by the interpreter stack
+      stack = [[style_element, None]]
 
-        style_ref = style_element.style_refs.pop()
+      while len(stack) > 0:
+
+        frame = stack[-1]
+        (current, merged) = frame
+
+        if merged is not None:
+          for style_prop, value in merged.styles.items():
+            current.styles.setdefault(style_prop, value)
+          frame[1] = None
+
+        if len(current.style_refs) == 0:
+          stack.pop()
+          continue
+
+        style_ref = current.style_refs.pop()
 
         if style_ref not in self.style_elements:
           LOGGER.error("Style id not present")
           continue
 
-        self.merge_chained_styles(self.style_elements[style_ref])
-
-        for style_prop, value in self.style_elements[style_ref].styles.items():
-          style_element.styles.setdefault(style_prop, value)
+        frame[1] = self.style_elements[style_ref]
+        stack.append([frame[1], None])
 
 
   qn = f"{{{xml_ns.TTML}}}styling"
